@@ -53,6 +53,8 @@ def history(wd, rnd, n_hist, quick):
             o["i"] = pos_map[o["i"] % len(pos_map)] if not low else o["i"] + 10
             while any(o["i"] == m[0] for m in members):
                 o["i"] += 3
+            if rnd.random() < 0.15:
+                o["i"] = rnd.choice([BIG, BIG + 1])           # a write beyond the capacity: rejected by every backend, nothing may move
             if o["i"] < BIG:
                 nxt = max(nxt, o["i"] + 1)
         elif op["c"] == "append":
